@@ -195,10 +195,18 @@ fn observe(d: &CoreDocument) -> Model {
 /// [gate] every placement of two ids over verificationMethod, two relationships (absent / embedded / referenced) and the
 /// services, handed to the deserialisation gate and to the builder: accepted iff the set-of-entries model has no clash
 fn gate_battery(log: &mut Vec<String>) {
-  let ids = ["did:example:doc#a", "did:example:doc#b"];
+  // (second pass: two ids that share their fragment under different DIDs - distinct identifiers, never a clash)
+  for ids in [["did:example:doc#a", "did:example:doc#b"], ["did:example:doc#a", "did:example:other#a"]] {
+    gate_pass(log, ids);
+  }
+  gate_builder(log);
+}
+
+fn gate_pass(log: &mut Vec<String>, ids: [&str; 2]) {
   let method = |id: &str| {
     let frag = &id[id.find('#').unwrap()..];
-    let m = VerificationMethod::new_from_jwk(CoreDID::parse("did:example:doc").unwrap(), method_key("did:example:doc", frag), Some(frag)).unwrap();
+    let owner = &id[..id.find('#').unwrap()];
+    let m = VerificationMethod::new_from_jwk(CoreDID::parse(owner).unwrap(), method_key(owner, frag), Some(frag)).unwrap();
     serde_json::from_str::<serde_json::Value>(&m.to_json().unwrap()).unwrap()
   };
   let svc = |id: &str| serde_json::json!({"id": id, "type": "T", "serviceEndpoint": "https://example.com/"});
@@ -273,6 +281,9 @@ fn gate_battery(log: &mut Vec<String>) {
       return;
     }
   }
+}
+
+fn gate_builder(log: &mut Vec<String>) {
   // the builder goes through the same gate
   let did = CoreDID::parse("did:example:doc").unwrap();
   let mk = |f: &str| VerificationMethod::new_from_jwk(did.clone(), method_key("did:example:doc", f), Some(f)).unwrap();
@@ -398,6 +409,53 @@ fn query_reference_battery(log: &mut Vec<String>) {
   }
 }
 
+/// Removal keeps the order of what remains (collections are *ordered* sets; fragment-only queries return the first match): three
+/// entries, the later two sharing a fragment under different DIDs, then the first is removed / detached.
+fn order_battery(log: &mut Vec<String>) {
+  let did = "did:example:doc";
+  let mk = |d: &str, f: &str| VerificationMethod::new_from_jwk(CoreDID::parse(d).unwrap(), method_key(d, f), Some(f)).unwrap();
+  for scope in [MethodScope::VerificationMethod, MethodScope::authentication()] {
+    for victim in 0..3usize {
+      let mut d = CoreDocument::builder(Object::new()).id(CoreDID::parse(did).unwrap()).build().unwrap();
+      let entries = [(did, "#first"), (did, "#shared"), ("did:example:other", "#shared")];
+      for (owner, frag) in entries {
+        d.insert_method(mk(owner, frag), scope).unwrap();
+      }
+      let ids: Vec<String> = entries.iter().map(|(o, f)| format!("{o}{f}")).collect();
+      let gone = DIDUrl::parse(&ids[victim]).unwrap();
+      if d.remove_method(&gone).is_none() {
+        log.push(format!("[order] remove_method({gone}) found nothing"));
+        continue;
+      }
+      let want: Vec<String> = ids.iter().enumerate().filter(|(i, _)| *i != victim).map(|(_, s)| s.clone()).collect();
+      let got: Vec<String> = d.methods(Some(scope)).into_iter().map(|m| m.id().to_string()).collect();
+      if got != want {
+        log.push(format!("[order] after removing {gone} the methods in scope {scope:?} are {got:?}, expected {want:?}"));
+      }
+      let first_shared = want.iter().find(|s| s.ends_with("#shared")).cloned();
+      let by_fragment = d.resolve_method("#shared", None).map(|m| m.id().to_string());
+      if by_fragment != first_shared {
+        log.push(format!("[order] after removing {gone}, resolve_method(\"#shared\") = {by_fragment:?}, the first remaining match is {first_shared:?}"));
+      }
+    }
+  }
+  // services and references likewise
+  for victim in 0..3usize {
+    let mut d = CoreDocument::builder(Object::new()).id(CoreDID::parse(did).unwrap()).build().unwrap();
+    let sids = [format!("{did}#s1"), format!("{did}#s2"), "did:example:other#s2".to_owned()];
+    for sidv in &sids {
+      let svc = Service::builder(Object::new()).id(DIDUrl::parse(sidv).unwrap()).type_("T").service_endpoint(Url::parse("https://example.com/").unwrap()).build().unwrap();
+      d.insert_service(svc).unwrap();
+    }
+    d.remove_service(&DIDUrl::parse(&sids[victim]).unwrap());
+    let want: Vec<String> = sids.iter().enumerate().filter(|(i, _)| *i != victim).map(|(_, s)| s.clone()).collect();
+    let got: Vec<String> = d.service().iter().map(|x| x.id().to_string()).collect();
+    if got != want {
+      log.push(format!("[order] after removing service {} the services are {got:?}, expected {want:?}", sids[victim]));
+    }
+  }
+}
+
 fn tag(op: Op) -> &'static str {
   match op {
     Op::InsertMethod(..) => "[insert]",
@@ -436,6 +494,7 @@ pub fn document_ops(cex: &Value) -> Result<String, String> {
     gate_battery(&mut log);
     case_variant_battery(&mut log);
     query_reference_battery(&mut log);
+    order_battery(&mut log);
     for (n_ids, n_rels, depth, prefix) in universes {
     let mut ops = Vec::new();
     for i in 0..n_ids {
